@@ -186,7 +186,7 @@ pub fn history_strategy() -> impl Strategy<Value = History> {
             let at = (pos as usize * (h.steps.len() + 1)) >> 16;
             h.steps.insert(at, s);
         }
-        let class_c = matches!(h.cfg.front, FrontKind::AsyncClassC | FrontKind::AsyncQ1);
+        let class_c = matches!(h.cfg.front, FrontKind::AsyncClassC | FrontKind::AsyncQ1 | FrontKind::AsyncSeeded);
         // insert rejected frames at receive opportunities
         for (pos, (recipe, slot, front)) in positions.iter().zip(inserts) {
             let targets: Vec<usize> = h.steps.iter().enumerate().filter(|(_, s)| matches!(s, Step::Send { .. } | Step::Join(_) | Step::RxcListen(_))).map(|(i, _)| i).collect();
